@@ -4,6 +4,10 @@ import json, sys
 
 ENGINE = "gsx"
 CHECKS = {
+ "C22": dict(
+   text="The client's CreateSession + ActivateSession sequence runs inside the symbolic executor over a secured channel opened by the real asymmetric OpenSecureChannel exchange against the repository's own server-side channel; the scripted server returns a genuine, corrupted (symbolic delta), empty, wrong-key or wrong-data session signature. RSA is an ideal signature model (verification succeeds iff the pair was produced by Sign under that key).",
+   note="Found and fixed: CreateSession returned (nil, nil) on a failed signature check and Connect then dereferenced the nil session. Bounds: 2 (quick) / 5 (thorough) secured policies x {Sign, SignAndEncrypt} x 5 signature kinds. Cryptographic strength of RSA itself is assumed (ideal model). Trusted: go/ssa, gsx, cvc5.",
+   ref="DESIGN.md §5 C22"),
  "C21": dict(
    text="Client-side response handling is executed symbolically against scripted responses of every decoder-producible shape: node helpers through a scripted ClientInterface; client and subscription calls over a real secure channel opened inside the executor against the repository's own server-side channel. Every Go run-time panic is an obligation.",
    note="Found and fixed: unchecked type assertions and result indexing in node.go and subscription.go. Connect/reconnect paths, history reads and the monitor package are outside. Trusted: go/ssa, gsx, z3.",
@@ -123,7 +127,6 @@ CHECKS = {
 }
 NOT_APPLICABLE = {
  "C08": "needs an independent Part 6 layout implementation in the harness compared byte for byte through the uninterpreted primitives; expressible with the engine but not built in this revision (DESIGN §6); C07 only sees layout errors that break gopcua-to-gopcua traffic",
- "C22": "as C21 plus a secured channel with a scripted signing peer; the suspected defect (CreateSession swallows the signature error) is described in DESIGN §6 but not decided by a check",
  "C27": "all interleavings of the publish loop with API callers: the bounded-preemption explorer exists (C11) but the harness with the loop and its transport stub was not built (DESIGN §6)",
  "C28": "needs the monitor/subscription pump driven through ClientInterface stubs plus the server queue under schedules; not built (DESIGN §6)",
  "C30": "needs the enabled policy/mode set threaded from server options to the OpenSecureChannel handling inside one harness; not built, the suspected defect is described in DESIGN §6 but not decided",
